@@ -162,11 +162,12 @@ impl <N: NumericOps> ArrayLinalgProducts<N> for Array<N> {
         if self.ndim()? == 1 && other.ndim()? == 1 {
             self.vdot(other)
         } else if self.ndim()? == 1 || other.ndim()? == 1 {
-            if self.ndim()? == 1 { self.shapes_align(0, &other.get_shape()?, other.ndim()? - 1)?; }
+            if self.ndim()? == 1 { self.shapes_align(0, &other.get_shape()?, other.ndim()? - 2)?; }
             else { self.shapes_align(self.ndim()? - 1, &other.get_shape()?, 0)?; }
             Self::matmul_1d_nd(self, other)
         } else if self.ndim()? == 2 && other.ndim()? == 2 {
             self.shapes_align(0, &other.get_shape()?, 1)?;
+            self.shapes_align(1, &other.get_shape()?, 0)?;
             Self::matmul_iterate(self, other)
         } else {
             Self::matmul_nd(self, other)
@@ -298,12 +299,10 @@ trait ProductsHelper<N: NumericOps> {
                     .collect::<Array<N>>()
                     .reshape(&new_shape)
             } else {
-                let result = arr_1
-                    .get_elements()?
-                    .into_iter()
-                    .zip(&arr_2.split_axis(0)?)
-                    .map(|(a, b)| b.into_iter()
-                        .map(|item| a.to_f64() * item.to_f64())
+                let (rows, cols) = (arr_2.shape[0], arr_2.shape[1]);
+                let result = (0..cols)
+                    .map(|j| (0..rows)
+                        .map(|i| arr_1[i].to_f64() * arr_2[i * cols + j].to_f64())
                         .sum::<f64>())
                     .map(N::from)
                     .collect::<Array<N>>();
